@@ -214,7 +214,8 @@ class BoundCallable:
         arg = next(iter(known.values())) if known else (args[0] if args else None)
 
         funname = getattr(fun, '__name__', None)
-        if funname in vars(builtins):
+        # NOTE: the builtin itself (int, str, ... as a constructor), not an action that happens to be named like one
+        if funname and getattr(builtins, funname, None) is fun:
             return ActualArguments(args=[arg])
 
         declared = inspect.signature(fun).parameters
